@@ -118,6 +118,8 @@ def run(ctx):
     for base in (4096, 8192, 16384, 32768, 65536, 131072, 1048576) if tier == "thorough" else (8192, 65536):
         conds.append(xh.Cond(f"snippet marker found at any offset around byte {base} (a plausible read-block boundary)", "C02.py", "_marker", {"marker_base": base}, timeout=tmo, twin="_marker_reach"))
     conds.append(xh.Cond("copyright notices on lines separated by CR / VT / FF / FS / GS / RS / NEL / LS / PS are read one per line", "C02.py", "_sep", {}, timeout=tmo, twin="_sep_reach"))
+    conds.append(xh.Cond("file line endings LF / CRLF / lone CR x snippet marker before / after / absent x final line ending: the same tags are read", "C02.py", "_eol", {}, timeout=tmo, twin="_eol_reach"))
+    conds.append(xh.Cond("reading is a function of the text alone: identifiers that differ only in case or spacing, read one after the other in either order", "C02.py", "_hist", {}, timeout=tmo, twin="_hist_reach"))
     ctx.functions_encoded = [
         "reuse.extract.find_spdx_tag",
         "reuse.extract._LICENSE_IDENTIFIER_PATTERN / _CONTRIBUTOR_PATTERN / _COPYRIGHT_PATTERNS / _END_PATTERN (real compiled patterns; PYRE on symbolic subjects)",
@@ -129,7 +131,7 @@ def run(ctx):
         "window": "tag line placed at every offset from 4096-60 to 4096+7, with/without a snippet marker before or after",
     }
     ctx.stubs = ["module-level pattern objects wrapped in PyRe", "Path(...).open replaced by an in-memory stream; relative_from_root stubbed", "licence parsing native on concrete strings"]
-    ctx.outside = ["values with more than two free characters", "bytes that are not valid UTF-8 (C codec)", "licence/contributor tags in CR-only files (the MULTILINE patterns do not end a line at a lone CR; copyright notices are checked for every separator)"]
+    ctx.outside = ["values with more than two free characters", "bytes that are not valid UTF-8 (C codec)", "licence/contributor tags in CR-only TEXT handed to extract_reuse_info directly (files are folded by decoded_text_from_binary, which is covered); (the MULTILINE patterns do not end a line at a lone CR; copyright notices are checked for every separator)"]
     ctx.assumptions = [f"PYRE == re on {n} comparisons this run", "value grammar: one line (no str.splitlines boundary), stripped"]
 
     def confirm(c, ex):
@@ -139,6 +141,10 @@ def run(ctx):
                 return None
             key = ex.get("known_key") or f"tag:{ex['kind']}:{ex['line']!r}"
             return key, f"line {ex['line']!r} is read as {ex['got']} instead of {ex['expected']}", w
+        if c.func == "_eol":
+            return f"line-ending:{ex['line_ending']}:{ex['snippet_marker']}", f"file with line ending {ex['line_ending']} (snippet marker {ex['snippet_marker']}, after={ex['marker_after']}): read {ex['got']}, expected {ex['expected']}", {"harness": "C02.py::_eol", "explain": ex}
+        if c.func == "_hist":
+            return f"read-history:{ex['identifiers_in_order']}", f"identifiers {ex['identifiers_in_order']} read one after the other give {ex['read']}; each alone gives {ex['each_read_alone']}", {"harness": "C02.py::_hist", "explain": ex}
         if c.func == "_sep":
             return f"separator:{ex['separator']}", f"text {ex['text']!r}: copyright notices read as {ex['got']}, expected {ex.get('expected')}", {"harness": "C02.py::_sep", "explain": ex}
         if c.func == "_marker":
